@@ -167,7 +167,7 @@ def judge_case(case, rec, log, start_factor=None):
                     try:
                         O.NNLS_SOLVER[0] = "scipy"
                         ref2 = O.evaluate_group(c, g, pv, data, bool(linked))
-                        regime = regime or ref2["kappa"] ** 2 >= T.C * 20 or ref2["huge"]
+                        regime = regime or ref2["kappa"] ** 2 >= T.C * 20 or ref2["huge"] or ref2["f13"]
                         second.append((linked, compare_group(ev["groups"][gi], ref2, "linked" if linked else "unlinked")))
                     except Exception:  # noqa
                         regime = True
